@@ -95,6 +95,40 @@ template <class Gr> static void dumpUndObs(std::ostream &o, const Gr &g) {
     o << "M1 " << guard([&] { return showMatrix(g.getAdjacencyMatrix(false)); }) << "\n";
 }
 
+
+// ---------------------------------------------------------------- file routines (writers)
+template <class L, class Gr> static typename std::enable_if<TextCodec<L>::ok, bool>::type writeTextVerb(const Gr &g, std::string &out) {
+    std::string path = scratchPath();
+    std::string r = guard([&] {
+        io::writeTextEdgeList(g, path, std::function<std::string(const L &)>([](const L &l) { return TextCodec<L>::to(l); }));
+        return std::string("ok");
+    });
+    out = "R " + r + "\n";
+    if (r == "ok") out += "F " + toHex(slurp(path)) + "\n";
+    unlink(path.c_str());
+    return true;
+}
+template <class L, class Gr> static typename std::enable_if<std::is_same<L, NoLabel>::value, bool>::type writeTextVerb(const Gr &g, std::string &out) {
+    std::string path = scratchPath();
+    std::string r = guard([&] { io::writeTextEdgeList(g, path); return std::string("ok"); });
+    out = "R " + r + "\n";
+    if (r == "ok") out += "F " + toHex(slurp(path)) + "\n";
+    unlink(path.c_str());
+    return true;
+}
+template <class L, class Gr> static typename std::enable_if<!TextCodec<L>::ok && !std::is_same<L, NoLabel>::value, bool>::type writeTextVerb(const Gr &, std::string &) { return false; }
+
+template <class L> struct BinOk { static const bool ok = std::is_arithmetic<L>::value; };
+template <class L, class Gr> static typename std::enable_if<BinOk<L>::ok || std::is_same<L, NoLabel>::value, bool>::type writeBinVerb(const Gr &g, std::string &out) {
+    std::string path = scratchPath();
+    std::string r = guard([&] { io::writeBinaryEdgeList(g, path); return std::string("ok"); });
+    out = "R " + r + "\n";
+    if (r == "ok") out += "F " + toHex(slurp(path)) + "\n";
+    unlink(path.c_str());
+    return true;
+}
+template <class L, class Gr> static typename std::enable_if<!(BinOk<L>::ok || std::is_same<L, NoLabel>::value), bool>::type writeBinVerb(const Gr &, std::string &) { return false; }
+
 // ---------------------------------------------------------------- slots
 struct SlotBase {
     virtual ~SlotBase() {}
@@ -113,7 +147,12 @@ struct SlotBase {
     virtual SlotBase *subgraph(const std::unordered_set<VertexIndex> &S, bool remap, std::string &out) const { return nullptr; }
     virtual bool algo(const std::string &verb, const Args &a, std::string &out, std::string &echo) { return false; }
     virtual bool io(const std::string &verb, const Args &a, std::string &out) { return false; }
+    // roundtriptext / roundtripbin: write this graph to a scratch file and load it back
+    virtual SlotBase *roundtrip(bool text, const std::string &kind, std::string &out) const { return nullptr; }
 };
+
+template <class L, bool UND> struct GrSlot;
+template <class L, bool UND> static SlotBase *roundtripImpl(const GrSlot<L, UND> &self, bool text, std::string &out);
 
 template <class L, bool UND> struct GrSlot : SlotBase {
     typedef typename std::conditional<UND, LabeledUndirectedGraph<L>, LabeledDirectedGraph<L>>::type Gr;
@@ -267,8 +306,15 @@ template <class L, bool UND> struct GrSlot : SlotBase {
     bool algo(const std::string &verb, const Args &a, std::string &out, std::string &echo) override {
         return runAlgo(g, verb, a, out, echo);
     }
+    SlotBase *roundtrip(bool text, const std::string &kind, std::string &out) const override {
+        if (kind != LK<L>::name()) return nullptr;
+        return roundtripImpl<L, UND>(*this, text, out);
+    }
     bool io(const std::string &verb, const Args &a, std::string &out) override {
-        return IoOps<L, UND>::write(g, verb, a, out);
+        if (a.size() != 1 || a[0] != LK<L>::name()) return false;
+        if (verb == "writetext") return writeTextVerb<L>(g, out);
+        if (verb == "writebin") return writeBinVerb<L>(g, out);
+        return false;
     }
 };
 
@@ -493,6 +539,9 @@ template <bool UND> static SlotBase *newGr(const std::string &kind, size_t n) {
     if (kind == "chr") return new GrSlot<char, UND>(n);
     if (kind == "str") return new GrSlot<std::string, UND>(n);
     if (kind == "pt") return new GrSlot<Pt, UND>(n);
+    if (kind == "i16") return new GrSlot<short, UND>(n);
+    if (kind == "i64") return new GrSlot<long long, UND>(n);
+    if (kind == "flt") return new GrSlot<float, UND>(n);
     return nullptr;
 }
 static SlotBase *newSlot(const std::string &cls, const std::string &kind, size_t n) {
@@ -561,9 +610,188 @@ template <bool UND> static SlotBase *ctorWg(const std::string &container, const 
 }
 #endif
 
+
+// ---------------------------------------------------------------- file routines (loaders)
+static std::string showNames(const std::vector<std::string> &names) {
+    std::string s = "names=";
+    for (size_t i = 0; i < names.size(); ++i) { if (i) s += ","; s += toHex(names[i]); }
+    return s;
+}
+template <class L> static std::pair<LabeledDirectedGraph<L>, std::vector<std::string>>
+loadTextG(std::false_type, const std::string &path, bool named, const std::function<L(const std::string &)> &f) {
+    return named ? io::loadTextVertexLabeledEdgeList<LabeledDirectedGraph, L>(path, f) : io::loadTextEdgeList<LabeledDirectedGraph, L>(path, f);
+}
+template <class L> static std::pair<LabeledUndirectedGraph<L>, std::vector<std::string>>
+loadTextG(std::true_type, const std::string &path, bool named, const std::function<L(const std::string &)> &f) {
+    return named ? io::loadTextVertexLabeledEdgeList<LabeledUndirectedGraph, L>(path, f) : io::loadTextEdgeList<LabeledUndirectedGraph, L>(path, f);
+}
+static std::pair<LabeledDirectedGraph<NoLabel>, std::vector<std::string>> loadTextN(std::false_type, const std::string &path, bool named) {
+    return named ? io::loadTextVertexLabeledEdgeList<LabeledDirectedGraph, NoLabel>(path) : io::loadTextEdgeList<LabeledDirectedGraph, NoLabel>(path);
+}
+static std::pair<LabeledUndirectedGraph<NoLabel>, std::vector<std::string>> loadTextN(std::true_type, const std::string &path, bool named) {
+    return named ? io::loadTextVertexLabeledEdgeList<LabeledUndirectedGraph, NoLabel>(path) : io::loadTextEdgeList<LabeledUndirectedGraph, NoLabel>(path);
+}
+template <class L, bool UND> static SlotBase *loadTextT(const std::string &path, bool named, std::string &r) {
+    SlotBase *res = nullptr;
+    r = guard([&] {
+        std::function<L(const std::string &)> f = [](const std::string &s) { return TextCodec<L>::from(s); };
+        auto pr = loadTextG<L>(std::integral_constant<bool, UND>(), path, named, f);
+        res = new GrSlot<L, UND>(pr.first);
+        return "ok " + showNames(pr.second);
+    });
+    return res;
+}
+template <bool UND> static SlotBase *loadTextNone(const std::string &path, bool named, std::string &r) {
+    SlotBase *res = nullptr;
+    r = guard([&] {
+        auto pr = loadTextN(std::integral_constant<bool, UND>(), path, named);
+        res = new GrSlot<NoLabel, UND>(pr.first);
+        return "ok " + showNames(pr.second);
+    });
+    return res;
+}
+template <class L> static LabeledDirectedGraph<L> loadBinG(std::false_type, const std::string &path) { return io::loadBinaryEdgeList<LabeledDirectedGraph, L>(path); }
+template <class L> static LabeledUndirectedGraph<L> loadBinG(std::true_type, const std::string &path) { return io::loadBinaryEdgeList<LabeledUndirectedGraph, L>(path); }
+template <class L, bool UND> static SlotBase *loadBinT(const std::string &path, std::string &r) {
+    SlotBase *res = nullptr;
+    r = guard([&] { res = new GrSlot<L, UND>(loadBinG<L>(std::integral_constant<bool, UND>(), path)); return std::string("ok"); });
+    return res;
+}
+template <bool UND> static SlotBase *loadK(const std::string &verb, const std::string &kind, const std::string &path, std::string &r) {
+    bool named = verb == "loadtextnamed";
+    if (verb == "loadtext" || verb == "loadtextnamed") {
+        if (kind == "none") return loadTextNone<UND>(path, named, r);
+        if (kind == "int") return loadTextT<int, UND>(path, named, r);
+        if (kind == "str") return loadTextT<std::string, UND>(path, named, r);
+        r = "bad-op"; return nullptr;
+    }
+    if (kind == "none") return loadBinT<NoLabel, UND>(path, r);
+    if (kind == "chr") return loadBinT<char, UND>(path, r);
+    if (kind == "i16") return loadBinT<short, UND>(path, r);
+    if (kind == "int") return loadBinT<int, UND>(path, r);
+    if (kind == "uint") return loadBinT<unsigned, UND>(path, r);
+    if (kind == "i64") return loadBinT<long long, UND>(path, r);
+    if (kind == "flt") return loadBinT<float, UND>(path, r);
+    if (kind == "dbl") return loadBinT<double, UND>(path, r);
+    r = "bad-op"; return nullptr;
+}
+// loadtext|loadtextnamed|loadbin <slot> <cls> <kind> <hex>   /   openfail <slot> <routine> <cls> <kind>
+static bool ioLoad(const std::string &verb, const Args &a, std::string &out, SlotBase *&res, int slot) {
+    res = nullptr;
+    if (verb == "openfail") {
+        if (a.size() != 3) return false;
+        const std::string &routine = a[0], &cls = a[1], &kind = a[2];
+        std::string bad = "/nonexistent-dir-bgh/x.dat";
+        std::string r = "bad-op";
+        if (routine == "loadtext" || routine == "loadtextnamed" || routine == "loadbin") {
+            SlotBase *tmp = cls == "dir" ? loadK<false>(routine, kind, bad, r) : cls == "und" ? loadK<true>(routine, kind, bad, r) : nullptr;
+            delete tmp;
+        } else if (routine == "writetext" || routine == "writebin") {
+            std::unique_ptr<SlotBase> g(newSlot(cls, kind, 2));
+            if (g) {
+                setenv("BGH_TMP", "/nonexistent-dir-bgh", 1);
+                std::string o;
+                if (g->io(routine, Args{kind}, o)) r = o.substr(2, o.find('\n') - 2);
+                unsetenv("BGH_TMP");
+                const char *keep = getenv("BGH_TMP_SAVED");
+                if (keep) setenv("BGH_TMP", keep, 1);
+            }
+        }
+        if (r == "bad-op") return false;
+        out = "R " + r + "\n";
+        return true;
+    }
+    if (a.size() != 3) return false;
+    std::string bytes;
+    if (!fromHex(a[2], bytes)) return false;
+    std::string path = scratchPath();
+    spit(path, bytes);
+    std::string r;
+    if (a[0] == "dir") res = loadK<false>(verb, a[1], path, r);
+    else if (a[0] == "und") res = loadK<true>(verb, a[1], path, r);
+    else r = "bad-op";
+    unlink(path.c_str());
+    if (r == "bad-op") return false;
+    std::ostringstream o;
+    o << "R " << r << "\n";
+    if (res) res->dump(o, slot); else o << "D " << slot << " empty\n";
+    out = o.str();
+    return true;
+}
+
+
+// ---------------------------------------------------------------- round trips
+template <class L, bool UND> struct RtText {
+    static SlotBase *run(const GrSlot<L, UND> &, std::string &out) { out = "bad-op"; return nullptr; }
+};
+template <bool UND> struct RtText<int, UND> {
+    static SlotBase *run(const GrSlot<int, UND> &self, std::string &out) {
+        std::string path = scratchPath(), w, r;
+        SlotBase *res = nullptr;
+        GrSlot<int, UND> &me = const_cast<GrSlot<int, UND> &>(self);
+        me.io("writetext", Args{"int"}, w);
+        if (w.compare(0, 4, "R ok") != 0) { out = w.substr(2, w.find('\n') - 2); return nullptr; }
+        std::string bytes; fromHex(w.substr(w.find("F ") + 2, w.rfind('\n') - w.find("F ") - 2), bytes);
+        spit(path, bytes);
+        res = loadTextT<int, UND>(path, false, r);
+        unlink(path.c_str());
+        out = r + "\nF " + toHex(bytes);
+        return res;
+    }
+};
+template <bool UND> struct RtText<std::string, UND> {
+    static SlotBase *run(const GrSlot<std::string, UND> &self, std::string &out) {
+        std::string path = scratchPath(), w, r;
+        GrSlot<std::string, UND> &me = const_cast<GrSlot<std::string, UND> &>(self);
+        me.io("writetext", Args{"str"}, w);
+        if (w.compare(0, 4, "R ok") != 0) { out = w.substr(2, w.find('\n') - 2); return nullptr; }
+        std::string bytes; fromHex(w.substr(w.find("F ") + 2, w.rfind('\n') - w.find("F ") - 2), bytes);
+        spit(path, bytes);
+        SlotBase *res = loadTextT<std::string, UND>(path, false, r);
+        unlink(path.c_str());
+        out = r + "\nF " + toHex(bytes);
+        return res;
+    }
+};
+template <bool UND> struct RtText<NoLabel, UND> {
+    static SlotBase *run(const GrSlot<NoLabel, UND> &self, std::string &out) {
+        std::string path = scratchPath(), w, r;
+        GrSlot<NoLabel, UND> &me = const_cast<GrSlot<NoLabel, UND> &>(self);
+        me.io("writetext", Args{"none"}, w);
+        if (w.compare(0, 4, "R ok") != 0) { out = w.substr(2, w.find('\n') - 2); return nullptr; }
+        std::string bytes; fromHex(w.substr(w.find("F ") + 2, w.rfind('\n') - w.find("F ") - 2), bytes);
+        spit(path, bytes);
+        SlotBase *res = loadTextNone<UND>(path, false, r);
+        unlink(path.c_str());
+        out = r + "\nF " + toHex(bytes);
+        return res;
+    }
+};
+template <class L, bool UND, bool OK = BinOk<L>::ok || std::is_same<L, NoLabel>::value> struct RtBin {
+    static SlotBase *run(const GrSlot<L, UND> &, std::string &out) { out = "bad-op"; return nullptr; }
+};
+template <class L, bool UND> struct RtBin<L, UND, true> {
+    static SlotBase *run(const GrSlot<L, UND> &self, std::string &out) {
+        std::string path = scratchPath(), w, r;
+        GrSlot<L, UND> &me = const_cast<GrSlot<L, UND> &>(self);
+        me.io("writebin", Args{LK<L>::name()}, w);
+        if (w.compare(0, 4, "R ok") != 0) { out = w.substr(2, w.find('\n') - 2); return nullptr; }
+        std::string bytes; fromHex(w.substr(w.find("F ") + 2, w.rfind('\n') - w.find("F ") - 2), bytes);
+        spit(path, bytes);
+        SlotBase *res = loadBinT<L, UND>(path, r);
+        unlink(path.c_str());
+        out = r + "\nF " + toHex(bytes);
+        return res;
+    }
+};
+template <class L, bool UND> static SlotBase *roundtripImpl(const GrSlot<L, UND> &self, bool text, std::string &out) {
+    return text ? RtText<L, UND>::run(self, out) : RtBin<L, UND>::run(self, out);
+}
+
 // ---------------------------------------------------------------- main loop
 int main(int argc, char **argv) {
     std::ios::sync_with_stdio(false);
+    if (getenv("BGH_TMP")) setenv("BGH_TMP_SAVED", getenv("BGH_TMP"), 1);
     std::ofstream echoFile;
     if (argc > 1) echoFile.open(argv[1]);
     std::map<int, std::unique_ptr<SlotBase>> slots;
@@ -636,6 +864,17 @@ int main(int argc, char **argv) {
                     ok = true;
                 }
             }
+        } else if ((verb == "roundtriptext" || verb == "roundtripbin") && w.size() == 4) {
+            if (pi(w[1], a) && pi(w[2], b) && get(a) && a != b) {
+                std::string r;
+                SlotBase *res = get(a)->roundtrip(verb == "roundtriptext", w[3], r);
+                if (r != "bad-op" && !r.empty()) {
+                    slots[b].reset(res);
+                    out << "R " << r << "\n";
+                    if (res) res->dump(out, b); else out << "D " << b << " empty\n";
+                    ok = true;
+                }
+            }
         } else if (verb == "ctor" && w.size() >= 5 && (w.size() - 5) % 3 == 0) {
             if (pi(w[1], a)) {
                 std::vector<std::array<long long, 3>> t3;
@@ -703,7 +942,7 @@ int main(int argc, char **argv) {
                 std::string r;
                 SlotBase *res = nullptr;
                 Args rest(w.begin() + 2, w.end());
-                if (ioLoad(verb, rest, r, res, a)) { slots[a].reset(res); out << r; ok = true; }
+                if (ioLoad(verb, rest, r, res, a)) { if (verb != "openfail") slots[a].reset(res); out << r; ok = true; }
             }
         } else if (w.size() >= 2) {
             if (pi(w[1], a) && get(a)) {
@@ -719,7 +958,7 @@ int main(int argc, char **argv) {
                 std::istringstream is(out.str());
                 std::string l;
                 while (std::getline(is, l))
-                    if (l.compare(0, 2, "R ") == 0 || l.compare(0, 2, "P ") == 0) o << l << "\n";
+                    if (l.compare(0, 2, "R ") == 0 || l.compare(0, 2, "P ") == 0 || l.compare(0, 2, "F ") == 0) o << l << "\n";
             }
         } else o << "bad-op\n";
         if (echoFile.is_open()) echoFile << echo << "\n";
